@@ -6,7 +6,7 @@ mkdir -p evidence replay .run
 fail=0
 for f in spec/*.tla; do
   out=$(cd spec && java -cp /opt/veriftools/tla/tla2tools.jar:/opt/veriftools/tla/CommunityModules-deps.jar tla2sany.SANY "$(basename "$f")" 2>&1)
-  if echo "$out" | grep -qi "error\|abort"; then echo "SANY FAILED: $f"; echo "$out" | tail -5; fail=1; fi
+  if echo "$out" | grep -q "\*\*\* Errors\|Parse Error\|Fatal error\|Could not find\|Lexical error\|was not found"; then echo "SANY FAILED: $f"; echo "$out" | tail -5; fail=1; fi
 done
 PYTHONPATH=/verif:/repo/src /venv/bin/python -c "
 import importlib, pkgutil, harness
